@@ -300,12 +300,9 @@ Definition get_all_missing (c : cfg) (s : st) : st :=
 Definition hopen (c : cfg) (file : bytes) : st :=
   get_all_missing c (ensure_checkpointed_size c (load_repair c file)).
 
-(* close(): 'r+b' write at offset 0 without truncation, or a fresh file *)
-Definition hclose (s : st) (file : option bytes) : bytes :=
-  match file with
-  | None => io s
-  | Some f => io s ++ skipn (length (io s)) f
-  end.
+(* close(): the buffer is written at offset 0 and the file is truncated there -- the file holds exactly
+   the chain in memory (`file` is what was on disk before; it does not matter) *)
+Definition hclose (s : st) (file : option bytes) : bytes := io s.
 
 (* ---- checkpointed chunks ---- *)
 Definition chunk_start (height : nat) : nat := Nat.div height CHUNK * CHUNK.
